@@ -6,6 +6,7 @@
 
 mod b_cluster;
 mod b_linear;
+mod b_misc;
 mod b_svm;
 mod fw;
 
@@ -32,6 +33,21 @@ fn specs() -> Vec<BuilderSpec> {
         b_svm::svm_nu_pr_spec(),
         b_svm::svm_regression_c_spec(),
         b_svm::svm_regression_nu_spec(),
+        b_misc::tree_spec(),
+        b_misc::gaussian_nb_spec(),
+        b_misc::multinomial_nb_spec(),
+        b_misc::ftrl_spec(),
+        b_misc::pls_regression_spec(),
+        b_misc::pls_canonical_spec(),
+        b_misc::pls_cca_spec(),
+        b_misc::tsne_spec(),
+        b_misc::ica_spec(),
+        b_misc::diffusion_map_spec(),
+        b_misc::gaussian_rp_spec(),
+        b_misc::sparse_rp_spec(),
+        b_misc::platt_spec(),
+        b_misc::count_vectorizer_spec(),
+        b_misc::mock_spec(),
     ]
 }
 
